@@ -1,5 +1,7 @@
 import RsMatterVerif.Model.Chunk
 import RsMatterVerif.Model.ChunkEvents
+import RsMatterVerif.Model.ChunkCursor
+import RsMatterVerif.Model.ChunkLive
 import Driver.Util
 /-! Driver for C14: the chunking model predicts, from the request (value lengths, data-version
 filters, event paths and filters, the events in the queue, the length of the transmit buffer,
@@ -14,15 +16,34 @@ contents intact; an error status only for a value that fits no message), and the
 the statuses of the invalid paths followed by exactly the queued events that match the paths and
 pass the filters, each once, in queue order.
 
+The attribute section is executed a second time on the cursor-level model (`Model/ChunkCursor.lean`:
+bytes of the write buffer, failing writes that leave a part behind (worst case: every free byte),
+explicit rewind positions, the list index of `send_array_items`, loops with fuel); the reports that
+start in the bytes of each message it sends, and the message lengths, must be those of the messages
+just compared with the implementation (`cursorCheck`, verdict `DIS cursor …`).  This is a consistency
+check of the two models (provably redundant: `cursor_attr_section`), not a tie to the code.
+
 The event queue itself is modelled too (`Model/ChunkEvents.lean`): from the pushed events (priority,
 length of the event in the queue = report length − `KR`) the model predicts which events survive
 the evictions / promotions, in which buffer, in which iteration order; the prediction is compared
 with the real queue (iteration order and bytes in use per buffer).  Specification on the real
 queue: its event numbers ascend.
 
+LIVE QUEUE (`p<k>:<prio><evid>:<len>` tokens): the harness pushes those events after message `k` of the
+answer was received and before it is acknowledged, i.e. between two `events.fetch` of the device, and
+reports the queue after every such batch (`@L<k>=n,n,…`).  Prediction: `respondLive` of
+`Model/ChunkLive.lean` (the fetch that follows message `j` reads the queue as it is after batch `j`); the
+queue model must predict the queue after every batch.  Specification on the implementation's messages
+(`liveOracle` = `FetchOk` / `LiveSpec` of `Lemmas/ChunkLive.lean`, message by message): the reported
+event numbers ascend strictly over the whole answer; every event reported in message `j` is in the queue
+as it was when message `j` was filled (after batch `j − 1`), selected and in range; the events of a message
+are a PREFIX of the selected events of that queue behind the last number reported before, and ALL of
+them in the last message (an event evicted before the reader reached it is legitimately absent, an
+event pushed meanwhile and in range must be reported).
+
 case header: `case <id> rd <B> <KS> <KW> <KE> <KI> <KX> <KV> <KT> [<KR>]`
-op: `rd|sp [b<cap>] <item>… [f<1|2><m|x>]… [q<W|1>] [z<n>] [e<c|i|d><1|2>:<len>]… [m<min>]…`
-out: `<status> | <queue>@<ms>@<debug>,<info>,<critical>,<N> | <chunk>;…`
+op: `rd|sp [b<cap>] <item>… [f<1|2><m|x>]… [q<W|1>] [z<n>] [e<c|i|d><1|2>:<len>]… [m<min>]… [p<k>:<c|i|d><1|2>:<len>]…`
+out: `<status> | <queue>@<ms>@<debug>,<info>,<critical>,<N>[@L<k>=n,…+L<k>=…] | <chunk>;…`
 -/
 namespace Driver.C14
 open Chunk
@@ -59,6 +80,8 @@ structure Op where
   /-- priority, event id, payload length of the pushed events (the n-th has number n) -/
   events : List (Nat × Nat × Nat) := []
   mins : List Nat := []
+  /-- live pushes: after message `k` of the answer: priority, event id, payload length -/
+  live : List (Nat × Nat × Nat × Nat) := []
 
 def lb (len : Nat) : Nat := if len < 256 then 1 else 2
 
@@ -93,6 +116,18 @@ def parseTok (o : Op) (w0 : String) : Option Op :=
         | _ => 2
       let evid := if head.endsWith "2" then 2 else 1
       len.toNat?.map fun n => { o with events := o.events ++ [(prio, evid, n)] }
+    | _ => none
+  else if kind = "p" then
+    match rest.splitOn ":" with
+    | [k, head, len] =>
+      let prio := match head.toList.head? with
+        | some 'd' => 0
+        | some 'i' => 1
+        | _ => 2
+      let evid := if head.endsWith "2" then 2 else 1
+      match k.toNat?, len.toNat? with
+      | some k, some n => some { o with live := o.live ++ [(k, prio, evid, n)] }
+      | _, _ => none
     | _ => none
   else if kind = "u" then some { o with items := o.items ++ [.u], changed := o.changed ++ [changed] }
   else if kind = "s" || kind = "S" || kind = "l" || kind = "L" then
@@ -146,6 +181,13 @@ def cfgOf (h : Hdr) (o : Op) (subId : Nat) : Cfg :=
     hdr := if o.subscribe then 1 + 2 + u32w subId else 1, arrOpen := 2, close := 1, trailerMore := 7,
     trailerDone := if o.subscribe then 4 else 6, evOpen := 2 }
 
+/-- the live pushes in the order in which they happen (stable by message index) -/
+def liveSorted (o : Op) : List (Nat × Nat × Nat × Nat) := o.live.mergeSort (fun a b => decide (a.1 ≤ b.1))
+
+/-- priority, event id, payload length of the event with number `n`: the events pushed before the
+request, then the live pushes -/
+def evTable (o : Op) : List (Nat × Nat × Nat) := o.events ++ (liveSorted o).map (·.2)
+
 def evSel (o : Op) (evid : Nat) : Bool := o.query = some 'W' || (o.query = some '1' && evid = 1)
 
 def nextMaxOf (o : Op) : Nat := if o.subscribe then o.events.length else 18446744073709551615
@@ -159,7 +201,7 @@ def evSize (h : Hdr) (ms len : Nat) : Nat := h.kv + (u64w ms - 1) + lb len + len
 
 def toEvReq (h : Hdr) (o : Op) (queue : List Nat) (ms : Nat) : EvReq :=
   { buf := queue.map fun n =>
-      match o.events[n - 1]? with
+      match (evTable o)[n - 1]? with
       | some (_, evid, len) => { num := n, size := evSize h ms len, sel := evSel o evid }
       | none => { num := n, size := 0, sel := false },
     mins := o.mins, maxSeen := 0, nextMax := nextMaxOf o, statuses := List.replicate o.invalid h.kt }
@@ -280,7 +322,7 @@ def expectedItems (o : Op) : List ReqItem :=
 /-- the event numbers a correct answer carries, in queue order -/
 def expectedEvents (o : Op) (queue : List Nat) : List Nat :=
   queue.filter fun n =>
-    match o.events[n - 1]? with
+    match (evTable o)[n - 1]? with
     | some (_, evid, _) => evSel o evid && o.mins.all (fun m => decide (m ≤ n)) && decide (n ≤ nextMaxOf o)
     | none => false
 
@@ -302,8 +344,8 @@ and the event reports (WF of the configuration included) -/
 def answerable (c : Cfg) (h : Hdr) (o : Op) (queue : List Nat) (ms : Nat) : Bool :=
   decide (c.reserve + c.structReserve ≤ c.cap) && decide (c.hdr + 2 + h.kx + 2 ≤ c.limit) &&
   decide (c.hdr + 2 + h.kt ≤ c.limit) &&
-  (expectedEvents o queue).all fun n =>
-    match o.events[n - 1]? with
+  (expectedEvents o (if o.live.isEmpty then queue else (List.range (evTable o).length).map (· + 1))).all fun n =>
+    match (evTable o)[n - 1]? with
     | some (_, _, len) => decide (c.hdr + 2 + evSize h ms len ≤ c.limit)
     | none => true
 
@@ -312,7 +354,44 @@ def subIdOf (status : String) (cs : List IChunk) : Nat :=
   | some n => n
   | none => ((cs.head?.bind (·.sub)).getD 1)
 
-def oracle (h : Hdr) (o : Op) (status : String) (queue : List Nat) (ms : Nat) (cs : List IChunk) : Option String :=
+def isAsc : List Nat → Bool
+  | a :: b :: rest => decide (a < b) && isAsc (b :: rest)
+  | _ => true
+
+/-- the queue as it is after the live pushes that followed message `k` (`q0`: before any) -/
+def queueAt (q0 : List Nat) (lives : List (Nat × List Nat)) (k : Nat) : List Nat :=
+  ((lives.filter fun l => decide (l.1 ≤ k)).getLast?.map (·.2)).getD q0
+
+def dataNumsOf (evs : List String) : List Nat :=
+  evs.filterMap fun p =>
+    let f := (p.splitOn ":").getD 0 ""
+    if firstCh f = "D" then (restStr f).toNat? else none
+
+def isPrefix : List Nat → List Nat → Bool
+  | [], _ => true
+  | a :: as, b :: bs => a == b && isPrefix as bs
+  | _ :: _, [] => false
+
+/-- **the live specification, message by message** (`FetchOk` / `LiveSpec`): `j` = index of the message,
+`cur` = the largest event number reported before it -/
+def liveWalk (o : Op) (q0 : List Nat) (lives : List (Nat × List Nat)) : Nat → Nat → List IChunk → Option String
+  | _, _, [] => none
+  | j, cur, ch :: rest =>
+    let q := queueAt q0 lives (j - 1)
+    let d := dataNumsOf ch.events
+    let pending := (expectedEvents o q).filter fun n => decide (cur < n)
+    if !isAsc (cur :: d) then some s!"message {j} reports the events {d} after event {cur}: the numbers do not ascend strictly (an event twice?)"
+    else if let some n := d.find? (fun n => !q.contains n) then
+      some s!"message {j} reports event {n} which is not in the queue {q} at that fetch"
+    else if let some n := d.find? (fun n => !(expectedEvents o q).contains n) then
+      some s!"message {j} reports event {n} which is not selected by the request"
+    else if rest.isEmpty && d ≠ pending then
+      some s!"the last message reports {d}, pending in the queue {q} behind {cur}: {pending}"
+    else if !isPrefix d pending then
+      some s!"message {j} reports {d}: not a prefix of the events pending in the queue {q} behind {cur}: {pending}"
+    else liveWalk o q0 lives (j + 1) (d.getLast?.getD cur) rest
+
+def oracle (h : Hdr) (o : Op) (status : String) (queue : List Nat) (ms : Nat) (lives : List (Nat × List Nat)) (cs : List IChunk) : Option String :=
   let c := cfgOf h o (subIdOf status cs)
   if status = "toomany" then some s!"the interaction does not end: {cs.length} messages and still MoreChunks"
   else if !answerable c h o queue ms then none   -- an error status / an event that fits no message: the device may give up
@@ -350,9 +429,11 @@ def oracle (h : Hdr) (o : Op) (status : String) (queue : List Nat) (ms : Nat) (c
             | none => some "the event reports are damaged or out of order (status after data)"
             | some (st, nums) =>
               if st ≠ o.invalid then some s!"{st} status reports for {o.invalid} invalid event paths"
-              else if nums ≠ expectedEvents o queue then
-                some s!"the reported events {nums} differ from the selected events {expectedEvents o queue}"
-              else none
+              else if o.live.isEmpty then
+                if nums ≠ expectedEvents o queue then
+                  some s!"the reported events {nums} differ from the selected events {expectedEvents o queue}"
+                else none
+              else liveWalk o queue lives 1 0 cs
 
 /-- the subscribe request of an `sr` op as the device sees it while priming: empty values, an empty
 event queue -/
@@ -369,9 +450,52 @@ def ringPredict (h : Hdr) (o : Op) (ms n kr : Nat) : Option (List Nat × List Na
   let ops := o.events.map fun (prio, _, len) => QOp.push prio (evSize h ms len - kr) none
   ((Queue.new n).run ops).map fun q => (q.iter.map (·.num), [qLen q.debug, qLen q.info, qLen q.crit])
 
-def isAsc : List Nat → Bool
-  | a :: b :: rest => decide (a < b) && isAsc (b :: rest)
-  | _ => true
+/-- the queue model over the live pushes: the predicted iteration order after every batch -/
+def ringLive (h : Hdr) (o : Op) (ms n kr : Nat) (lives : List (Nat × List Nat)) : Option String :=
+  let qop := fun (x : Nat × Nat × Nat) => QOp.push x.1 (evSize h ms x.2.2 - kr) none
+  match (Queue.new n).run (o.events.map qop) with
+  | none => some "DIS queue: the model panics"
+  | some q0 =>
+    let rec go (q : Queue) : List (Nat × List Nat) → Option String
+      | [] => none
+      | (k, real) :: rest =>
+        match q.run (((liveSorted o).filter fun l => l.1 = k).map fun l => qop l.2) with
+        | none => some "DIS queue: the model panics"
+        | some q2 =>
+          if q2.iter.map (·.num) = real then go q2 rest
+          else some s!"DIS live queue after message {k}: {q2.iter.map (·.num)} (implementation: {real})"
+    go q0 lives
+
+/-- number of messages sent before the first `events.fetch` (attribute chunks, chunks sent for status reports) -/
+def firstFetchMsgs (c : Cfg) (r : Req) : Nat :=
+  match attrSection c r.attrs, r.events with
+  | .ok s, some e =>
+    match expand c s.lim c.evOpen with
+    | .ok lim =>
+      match putEvStatuses c 0 e.statuses { s with lim := lim, used := s.used + c.evOpen, base := s.used + c.evOpen, cursor := e.maxSeen } with
+      | .ok s2 => s2.done.length
+      | .error _ => 0
+    | .error _ => 0
+  | _, _ => 0
+
+/-- the cursor-level model of the attribute section against the messages `ms` (which at this point
+are textually those of the implementation): every attribute chunk it sends has the reports and the
+length of the corresponding message, the buffer it leaves holds the reports of the next message -/
+def cursorCheck (c : Cfg) (r : Req) (ms : List ChunkOut) : Option String :=
+  match r.attrs with
+  | none => none
+  | some as =>
+    match cattrs c pwAll false [] as with
+    | .error _ => some "the cursor-level model fails where the size-level model answers"
+    | .ok x =>
+      let sent := x.sent.reverse
+      let got := sent.map fun m => (reportStarts m, m.length + c.trailerMore, true)
+      let want := (ms.take sent.length).map fun ch => (ch.pieces, ch.size, ch.events.isEmpty && ch.more)
+      if got ≠ want then
+        some s!"attribute chunks {got.map fun g => (g.1.map rPiece, g.2.1)} (messages: {want.map fun g => (g.1.map rPiece, g.2.1)})"
+      else if ((ms.drop sent.length).head?.map (·.pieces)) ≠ some (reportStarts x.wb.live) then
+        some s!"open chunk {(reportStarts x.wb.live).map rPiece}"
+      else none
 
 structure St where
   h : Hdr := {}
@@ -402,8 +526,16 @@ def step (st : St) (line : String) : St × String :=
       if !ichunks.all Option.isSome then (st, "BAD chunk") else
       let cs := ichunks.filterMap id
       let heads := ((qparts.getD 2 "").splitOn ",").filterMap String.toNat?
+      -- the queue after every batch of live pushes: `L<k>=n,n,…`
+      let lives : List (Nat × List Nat) :=
+        if (qparts.getD 3 "") = "" then [] else
+        ((qparts.getD 3 "").splitOn "+").filterMap fun t =>
+          match (restStr t).splitOn "=" with
+          | [k, ns] => k.toNat?.map fun k => (k, (ns.splitOn ",").filterMap String.toNat?)
+          | _ => none
       if !isAsc queue then (st, s!"ORA the event numbers of the queue {queue} do not ascend") else
-      match oracle st.h o status queue ms cs with
+      if let some l := lives.find? (fun l => !isAsc l.2) then (st, s!"ORA the event numbers of the queue {l.2} (after message {l.1}) do not ascend") else
+      match oracle st.h o status queue ms lives cs with
       | some why => (st, s!"ORA {why}")
       | none =>
         -- the model of the event queue against the real queue
@@ -413,7 +545,7 @@ def step (st : St) (line : String) : St × String :=
             match ringPredict st.h o ms n kr with
             | none => some "DIS queue: the model panics"
             | some (order, used) =>
-              if order = queue && used = [hd, hi, hc] then none
+              if order = queue && used = [hd, hi, hc] then ringLive st.h o ms n kr lives
               else some s!"DIS queue {order} used {used} (implementation: {queue} used {[hd, hi, hc]})"
           | _, _ => none
         if let some d := ringDis then (st, d) else
@@ -422,13 +554,28 @@ def step (st : St) (line : String) : St × String :=
         -- a report presupposes the priming: if the device cannot prime, the subscription is not established
         let primed := !o.report || (match respond c (toReq st.h (primingOf o) [] 0) with | .ok _ => true | .error _ => false)
         if !primed then (if status = "hang" then (st, "ok") else (st, "DIS priming fails")) else
-        match respond c (toReq st.h o queue ms) with
+        -- the first fetch reads the queue as it is after the messages sent before it, every later
+        -- fetch the queue after one more message
+        let m0 := if lives.isEmpty then 0 else firstFetchMsgs c (toReq st.h o queue ms)
+        let kmax := (lives.map (·.1)).foldl max 0
+        let bufOf := fun (k : Nat) => ((toEvReq st.h o (queueAt queue lives k) ms).buf)
+        let later := if lives.isEmpty then [] else (List.range (kmax - m0)).map fun i => bufOf (m0 + 1 + i)
+        let req := toReq st.h o (queueAt queue lives m0) ms
+        match respondLive c req later with
         | .ok [] => if status.startsWith "none:" then (st, "ok") else (st, "DIS ok | (no message)")
         | .ok ms =>
           let mtext := ";".intercalate (ms.map rChunk)
           let itext := ";".intercalate (cs.map rIChunk)
-          if (status = "ok" || status.startsWith "ok:") && mtext = itext then (st, "ok") else (st, s!"DIS ok | {mtext}")
+          if (status = "ok" || status.startsWith "ok:") && mtext = itext then
+            match cursorCheck c req ms with
+            | none => (st, "ok")
+            | some why => (st, s!"DIS cursor {why}")
+          -- observation `C14.orphan_chunk` (live queue only): the model sends messages the last of which
+          -- announces more and then counts the report as empty; the peer sees exactly those and no last one
+          else if status = "hang" && mtext = itext && (ms.getLast?.map (·.more)).getD false then (st, "ok")
+          else (st, s!"DIS ok | {mtext}")
         | .error .loops => (st, "DIS loops")
+        | .error .overflow => (st, "DIS overflow")   -- cursor level only: never an outcome of the size-level model
         -- the device gives up: a request gets no (complete) answer, a report is not sent
         | .error .noSpace => if status = "hang" || (o.report && status.startsWith "none:") then (st, "ok") else (st, "DIS nospace")
         | .error .tooBig => if status = "hang" || (o.report && status.startsWith "none:") then (st, "ok") else (st, "DIS toobig")
